@@ -429,7 +429,7 @@ class SimStdout(object):
         self.n += 1
         self.writes.append((t.tid if t is not None else -1, s))
         f = self.fault
-        if f is not None and self.n == f['at']:
+        if f is not None and self.n == f['at'] and f['kind'] != 'ascii':
             self.fired.append(f['kind'])
             k = f['kind']
             if k == 'epipe':
@@ -438,12 +438,13 @@ class SimStdout(object):
                 raise OSError(28, 'No space left on device (injected)')
             if k == 'closed':
                 raise ValueError('I/O operation on closed file (injected)')
-            if k == 'ascii':
-                try:
-                    s.encode('ascii')
-                except UnicodeEncodeError:
-                    raise
-                self.fired.pop()
+        if f is not None and f['kind'] == 'ascii' and self.n >= f['at']:
+            # from the n-th write on the stream behaves like an ASCII-only terminal (LANG=C)
+            try:
+                s.encode('ascii')
+            except UnicodeEncodeError:
+                self.fired.append('ascii')
+                raise
         if t is not None:
             sim.point('io.write', boost=self.slow)
         return len(s)
